@@ -121,6 +121,7 @@ class Scheduler:
         self.errors = []           # harness errors noticed inside tasks
         self.idle_cost_ns = 20_000
         self.fifo = False          # True: always run the first runnable task (reference schedule)
+        self.on_task_start = None  # hook run in a task's own thread before its function (e.g. to install sys.settrace)
 
     # -- time and events ----------------------------------------------------------------------------------------------
 
@@ -161,6 +162,8 @@ class Scheduler:
                 raise SimAbort
             if not t.proc.alive:
                 raise SimKilled
+            if self.on_task_start is not None:
+                self.on_task_start(t)
             t.result = t.fn()
         except SimKilled:
             t.exc = 'killed'
